@@ -232,7 +232,11 @@ func (cc *ClientConn) readHandshakeResponse() (HandshakeResponseInfo, error) {
 			cc.RecycleReadPacket()
 			cc.WriteAuthSwitchRequest(info.AuthPlugin)
 			// readAuthSwitchRequestResponse
-			info.AuthResponse, err = cc.ReadEphemeralPacketDirect()
+			data, err = cc.ReadEphemeralPacketDirect()
+			// the packet buffer goes back to the pool when this function returns
+			// (deferred RecycleReadPacket) and is then filled by whichever
+			// connection reads or writes next: keep a copy, not a slice of it
+			info.AuthResponse = append([]byte(nil), data...)
 			if err != nil {
 				return info, fmt.Errorf("readHandshakeResponse: can't read auth switch response")
 			}
